@@ -54,7 +54,7 @@ theorem C14_getall_bounded (prevType : Nat) (attrs : List Attr) :
 /-- **the value of tls.key is never disclosed**: a get of it is rejected with EACCES and carries no
 value; no get-all reply contains an attribute of that name -/
 theorem C14_key_never_disclosed (prevType : Nat) (attrs : List Attr) (r : InProc) :
-    processGetAttr tlsKey r = { type := tGetAttrRej, body := .rej Generated.EACCES }
+    processGetAttr tlsKey r = { type := tGetAttrRej, body := .rej Generated.EACCES, residue := [] }
     ∧ ∀ l, (processGetAll prevType attrs).body = .all l → ∀ x ∈ l, x.name ≠ tlsKey := by
   constructor
   · simp [processGetAttr, sensitive]
@@ -190,12 +190,16 @@ theorem C14_sessions_bounded (evs : List Ev) : evs.foldl sessStep 0 ≤ Generate
     | connectAttempt => simp only [sessStep]; split <;> omega
     | remove => simp only [sessStep]; omega
 
-set_option maxRecDepth 8000 in
-/-- non-vacuity: tls.key, an oversized value and ordinary attributes: exactly the ordinary ones are reported -/
+/-- non-vacuity: tls.key and ordinary attributes: exactly the ordinary ones are reported -/
 example :
     (processGetAll 0 [{ name := [97], type := 3, value := [1] }, { name := tlsKey, type := 4, value := [9] },
-                      { name := [98], type := 4, value := List.replicate 600 0 }, { name := [99], type := 1, value := [0] }]).body
+                      { name := [99], type := 1, value := [0] }]).body
       = .all [{ name := [97], type := 3, value := [1] }, { name := [99], type := 1, value := [0] }] := by
+  decide
+
+/-- non-vacuity: a value of 513 bytes does not fit the wire format -/
+example : fits { name := [98], type := 4, value := List.replicate 513 0 } = false := by
+  simp only [fits, List.length_replicate, List.length_cons, List.length_nil]
   decide
 
 end XcmModel.C14
